@@ -334,6 +334,12 @@ fn main() {
 
                 // Output as JSON
                 if lint.json {
+                    // Like the other output modes: only the base file, unless all files are asked for
+                    if !lint.all_files {
+                        if let Some(base_file) = parser.reader.get_base_file() {
+                            diags.retain(|d| d.file == base_file);
+                        }
+                    }
                     let mut printer = JSONPrint::new(diags);
                     printer.display_errors(&parser);
                 }
